@@ -304,6 +304,12 @@ def mpc_pow_int(z, n, prec, rnd=round_fast):
     if bsign: bman = -bman
     de = aexp - bexp
     abs_de = abs(de)
+    if not de and abs(aman) == 1 and abs(bman) == 1:
+        # 2^e (+-1 +- i): the eighth power is 16 * 2^(8e), so the power is a
+        # small Gaussian integer times a power of two, whatever n
+        re, im = complex_int_pow(aman, bman, n % 8)
+        sh = 4*(n // 8) + int(n*aexp)
+        return from_man_exp(re, sh, prec, rnd), from_man_exp(im, sh, prec, rnd)
     # Upper bound for the size of the exact power (up to twice too large,
     # since the modulus can be smaller than the larger component suggests)
     exact_size = n*(abs_de + max(abc, bbc))
